@@ -6,9 +6,10 @@
    Part 3  T10.2 the unroll and padded-scan models return the derivatives of
            the formal solution (every polynomial field, order k >= 1, num)
    Part 4  polynomial arithmetic of the recursive-JVP model is sound for series
-           composition; T10.3 the recursive-JVP model is correct for autonomous
-           fields; T10.5 agreement; T10.6 the repaired recursion (t as one more
-           variable with tangent 1) is correct for every field
+           composition; T10.3 jetexpand_ode_via_jvp as coded now (t as one more
+           primal with tangent 1) is correct for every field; the routine before
+           that repair (t closed over) is correct for autonomous fields only;
+           T10.5 agreement
    Part 6  first-order Taylor expansion of a composition modulo tau^(2 deg);
            T10.4 the Newton-doubling model is correct for autonomous
            first-order fields
@@ -1079,7 +1080,7 @@ Section JetProofs.
     - intro Haut. rewrite via_jvp_correct_autonomous, unroll_correct by assumption. reflexivity.
   Qed.
 
-  (* ---- the repaired recursion: t as one more variable with tangent 1 ---- *)
+  (* ---- jetexpand_ode_via_jvp as coded now: t as one more primal with tangent 1 ---- *)
   (* F_{n+1} = <grad_x F_n, (x_1, .., f)> + dF_n/dt : what jetexpand_ode_via_jvp
      would compute if t were passed to jvp as an extra primal with tangent 1
      (Model/Jet.v via_jvp_fixed_model) *)
@@ -1149,7 +1150,7 @@ Section JetProofs.
       replace (vf_k v + S n)%nat with (S (vf_k v + n)) by lia. reflexivity.
   Qed.
 
-  (* the repaired recursion is correct for EVERY polynomial field, time-dependent or not *)
+  (* the routine as coded now is correct for EVERY polynomial field, time-dependent or not *)
   Theorem via_jvp_fixed_correct (v : vfield) (t0 : F) (inits : list tvec) (num : nat) :
     1 <= vf_k v -> wf_problem v inits ->
     via_jvp_fixed_model v inits t0 num = Some (spec_derivs v t0 inits num).
@@ -1180,6 +1181,17 @@ Section JetProofs.
           rewrite (fs_eq_at _ _ (Hc ltac:(lia)) 0%nat). rewrite curve_fs_rise, rise_0.
           replace (0 + (vf_k v + i))%nat with n by (unfold i; lia).
           replace (vf_k v + i)%nat with n by (unfold i; lia). reflexivity.
+  Qed.
+
+  (* T10.5 for the routines as coded now: all three agree for EVERY field *)
+  Corollary routines_agree_all_fields (v : vfield) (t0 : F) (inits : list tvec) (num : nat) :
+    1 <= vf_k v -> wf_problem v inits ->
+    padded_scan_model v inits t0 num = unroll_model v inits t0 num /\
+    via_jvp_fixed_model v inits t0 num = unroll_model v inits t0 num.
+  Proof.
+    intros Hk Hwf. split.
+    - rewrite padded_scan_correct, unroll_correct by assumption. reflexivity.
+    - rewrite via_jvp_fixed_correct, unroll_correct by assumption. reflexivity.
   Qed.
 End JetProofs.
 
@@ -1788,7 +1800,7 @@ Lemma witness_via_jvp_fixed :
   = Some [[1 # 1]; [3 # 4]; [19 # 8]; [75 # 16]]%Q.
 Proof. vm_compute. reflexivity. Qed.
 
-Lemma P_via_jvp_witness_values :
+Lemma P_via_jvp_closed_over_time_witness_values :
   map (map (fun x : Qc => this x)) (spec_derivs witness_field witness_t0 witness_inits 3)
     = [[1 # 1]; [3 # 4]; [19 # 8]; [75 # 16]]%Q /\
   match via_jvp_model witness_field witness_inits witness_t0 3 with
@@ -1797,7 +1809,7 @@ Lemma P_via_jvp_witness_values :
   end.
 Proof. split; [exact witness_spec|]. vm_compute. reflexivity. Qed.
 
-Lemma P_via_jvp_time_dependent_refuted :
+Lemma P_via_jvp_closed_over_time_refuted :
   exists (v : @vfield Qc) (inits : list (list Qc)) (t0 : Qc) (num : nat),
     (1 <= vf_k v)%nat /\ wf_problem v inits /\
     via_jvp_model v inits t0 num <> Some (spec_derivs v t0 inits num).
